@@ -67,6 +67,8 @@ fn project_deep(book: &umya::Spreadsheet) -> Value {
 }
 
 struct Gen {
+    /// (sheet index, coordinate) the edit resolved to
+    edited: Option<(usize, String)>,
     bytes: Vec<u8>,
     p: Value,
     deep: Value,
@@ -74,17 +76,70 @@ struct Gen {
 }
 
 /// one generation: load `input` (through a chunking source), optionally edit, save with `light`
-fn generation(input: Vec<u8>, light: bool, hash_seed: u64, chunk: usize, edit: Option<Op>) -> Result<Gen, String> {
+/// A single-cell edit: what to write and how the target cell is picked in the loaded workbook
+/// ("fresh": the given coordinate; "existing": the nth existing cell; "formula": the nth formula cell).
+#[derive(Clone, Debug, serde::Serialize, serde::Deserialize)]
+pub struct Edit {
+    pub kind: String,
+    pub v: String,
+    pub sheet: usize,
+    pub pick: String,
+    pub nth: usize,
+    pub cell: String,
+}
+
+fn apply_edit(book: &mut umya::Spreadsheet, e: &Edit) -> Option<(usize, String)> {
+    let n = book.get_sheet_count();
+    if n == 0 {
+        return None;
+    }
+    let si = e.sheet % n;
+    let ws = book.get_sheet_mut(&si)?;
+    let mut coords: Vec<(u32, u32, bool)> = ws
+        .get_cell_collection()
+        .iter()
+        .map(|c| (*c.get_coordinate().get_row_num(), *c.get_coordinate().get_col_num(), !c.get_formula().is_empty()))
+        .collect();
+    coords.sort();
+    let cell = match e.pick.as_str() {
+        "existing" if !coords.is_empty() => {
+            let c = coords[e.nth % coords.len()];
+            umya::helper::coordinate::coordinate_from_index(&c.1, &c.0)
+        }
+        "formula" if coords.iter().any(|c| c.2) => {
+            let f: Vec<&(u32, u32, bool)> = coords.iter().filter(|c| c.2).collect();
+            let c = f[e.nth % f.len()];
+            umya::helper::coordinate::coordinate_from_index(&c.1, &c.0)
+        }
+        _ => e.cell.clone(),
+    };
+    let c = ws.get_cell_mut(cell.as_str());
+    match e.kind.as_str() {
+        "num" => {
+            c.set_value_number(e.v.parse::<f64>().unwrap_or(1.0));
+        }
+        "formula" => {
+            c.set_formula(e.v.clone());
+        }
+        _ => {
+            c.set_value_string(e.v.clone());
+        }
+    }
+    Some((si, cell))
+}
+
+fn generation(input: Vec<u8>, light: bool, hash_seed: u64, chunk: usize, edit: Option<Edit>) -> Result<Gen, String> {
     with_hash_seed(hash_seed, move || -> Result<Gen, String> {
         let mut src = SimSource::new(input, hash_seed ^ 0x5555, chunk);
         let mut book = umya::reader::xlsx::read_reader(&mut src, true).map_err(|e| format!("load failed: {:?}", e))?;
-        if let Some(op) = &edit {
-            world::apply(&mut book, op);
+        let mut edited = None;
+        if let Some(e) = &edit {
+            edited = apply_edit(&mut book, e);
         }
         let bytes = world::save_mem(&book, light)?;
         // what this generation's file shows when loaded again
         let again = world::load_mem(&bytes, true)?;
-        Ok(Gen { p: project(&again), deep: project_deep(&again), d: decode::decode(&bytes).ok(), bytes })
+        Ok(Gen { edited, p: project(&again), deep: project_deep(&again), d: decode::decode(&bytes).ok(), bytes })
     })?
 }
 
@@ -131,7 +186,7 @@ pub fn execute(case: &Value, _scratch: &str) -> Outcome {
     let flavours: Vec<bool> = case["flavours"].as_array().cloned().unwrap_or_default().iter().map(|v| v.as_bool().unwrap_or(false)).collect();
     let seeds: Vec<u64> = case["gen_hash_seeds"].as_array().cloned().unwrap_or_default().iter().map(|v| get_u64(&json!({ "x": v }), "x")).collect();
     let chunk = case["chunk"].as_u64().unwrap_or(0) as usize;
-    let edit: Option<Op> = serde_json::from_value(case["edit"].clone()).ok();
+    let edit: Option<Edit> = serde_json::from_value(case["edit"].clone()).ok();
     let facet_src = src_kind.as_str();
 
     // what the original shows
@@ -236,42 +291,43 @@ pub fn execute(case: &Value, _scratch: &str) -> Outcome {
         }
     }
     // a single-cell edit changes nothing else
-    if let Some(op) = edit {
-        if let Op::SetText { sheet, cell, .. } = &op {
-            let seed = seeds.first().cloned().unwrap_or(1);
-            match generation(input.clone(), flavours.first().cloned().unwrap_or(false), seed, chunk, Some(op.clone())) {
-                Ok(e1) => {
-                    let n = e1.p["sheets"].as_array().map(|a| a.len()).unwrap_or(1).max(1);
-                    let si = *sheet % n;
+    if let Some(e) = edit {
+        let seed = seeds.first().cloned().unwrap_or(1);
+        match generation(input.clone(), flavours.first().cloned().unwrap_or(false), seed, chunk, Some(e.clone())) {
+            Ok(e1) => {
+                if let Some((si, cell)) = e1.edited.clone() {
                     let mut pa = chain[0].p.clone();
                     let mut pb = e1.p.clone();
-                    let had = pa["sheets"][si]["cells"].get(cell).is_some();
+                    let had = pa["sheets"][si]["cells"].get(&cell).is_some();
                     for p in [&mut pa, &mut pb] {
                         if let Some(c) = p["sheets"][si]["cells"].as_object_mut() {
-                            c.remove(cell);
+                            c.remove(&cell);
                         }
                     }
                     if pa != pb {
                         out.violate(Verdict::new(
                             "C04",
                             "C04:edit-changes-other-content",
-                            &[("source", facet_src), ("kind", &first_key(&pa, &pb))],
-                            format!("editing {} on sheet {} changed something else in the saved result: {}", cell, si, diff_summary(&pa, &pb)),
+                            &[("source", facet_src), ("kind", &first_key(&pa, &pb)), ("edit", &e.kind)],
+                            format!("editing {} on sheet {} ({} edit) changed something else in the saved result: {}", cell, si, e.kind, diff_summary(&pa, &pb)),
                         ));
                     }
-                    let got = e1.p["sheets"][si]["cells"][cell]["v"].as_str().unwrap_or("").to_string();
-                    if let Op::SetText { v, .. } = &op {
-                        if &got != v {
-                            out.violate(Verdict::new("C04", "C04:edit-lost", &[("source", facet_src)], format!("the edited cell {} holds {:?} after save+reload, expected {:?}", cell, got, v)));
-                        }
+                    let key = if e.kind == "formula" { "f" } else { "v" };
+                    let got = e1.p["sheets"][si]["cells"][&cell][key].as_str().unwrap_or("").to_string();
+                    let same = if e.kind == "num" { got.parse::<f64>().ok() == e.v.parse::<f64>().ok() } else { got == e.v };
+                    if !same {
+                        out.violate(Verdict::new("C04", "C04:edit-lost", &[("source", facet_src), ("edit", &e.kind)], format!("the edited cell {} holds {:?} after save+reload, expected {:?}", cell, got, e.v)));
                     }
                     if had {
                         out.probe("edit_overwrote_existing_cell");
                     }
-                    out.step("generations", 1);
+                    if had && !chain[0].p["sheets"][si]["cells"][&cell]["f"].as_str().unwrap_or("").is_empty() {
+                        out.probe("edit_overwrote_formula_cell");
+                    }
                 }
-                Err(e) => out.violate(Verdict::new("C04", "C04:generation-fails", &[("source", facet_src), ("generation", "edit")], e.chars().take(300).collect::<String>())),
+                out.step("generations", 1);
             }
+            Err(err) => out.violate(Verdict::new("C04", "C04:generation-fails", &[("source", facet_src), ("generation", "edit")], err.chars().take(300).collect::<String>())),
         }
     }
     out.nontrivial = chain.len() >= 2;
@@ -311,9 +367,16 @@ pub fn cases(run_seed: u64, tier: &str, _scratch: &str) -> Vec<Value> {
     c["flavours"] = json!((0..gens).map(|_| sw.chance(1, 3)).collect::<Vec<_>>());
     c["gen_hash_seeds"] = json!((0..gens).map(|_| hex64(hs.next_u64())).collect::<Vec<_>>());
     c["chunk"] = json!([0u64, 0, 3, 64, 4096][sw.usize(5)]);
-    if sw.chance(2, 3) {
-        let cell = if sw.chance(1, 2) { world::gen_cell(&mut wl, 12) } else { format!("{}{}", ["F", "H", "K", "AB"][wl.usize(4)], 1 + wl.below(60)) };
-        c["edit"] = serde_json::to_value(Op::SetText { sheet: wl.usize(4), cell, v: format!("edit:{}", world::gen_text(&mut wl, sw.usize(4), 3)) }).unwrap();
+    if sw.chance(3, 4) {
+        let cell = if sw.chance(1, 2) { world::gen_cell(&mut wl, 17) } else { format!("{}{}", ["F", "H", "K", "AB"][wl.usize(4)], 1 + wl.below(60)) };
+        let kind = ["text", "text", "num", "formula"][sw.usize(4)];
+        let v = match kind {
+            "num" => format!("{}", wl.below(100000) as f64 / 8.0),
+            "formula" => format!("{}+{}", 1 + wl.below(9), 1 + wl.below(9)),
+            _ => format!("edit:{}", world::gen_text(&mut wl, sw.usize(4), 3)),
+        };
+        let e = Edit { kind: kind.to_string(), v, sheet: wl.usize(4), pick: ["fresh", "existing", "formula", "formula"][sw.usize(4)].to_string(), nth: wl.usize(10_000), cell };
+        c["edit"] = serde_json::to_value(&e).unwrap();
     }
     vec![c]
 }
